@@ -256,6 +256,11 @@ user_exists(const string *localpart, const char *domain, struct userconf *dsp)
 	 * it could be abused to check the existence of files */
 	if (memchr(localpart->s, '/', localpart->len))
 		return 0;
+	/* "." and ".." are no mailboxes either: as directory names they mean the
+	 * domain directory itself and its parent, which are never user directories */
+	if (((localpart->len == 1) || (localpart->len == 2)) &&
+			(localpart->s[0] == '.') && (localpart->s[localpart->len - 1] == '.'))
+		return 0;
 
 /* get the domain directory from "users/cdb" */
 	res = vget_dir(domain, ds);
